@@ -319,6 +319,27 @@ def c19_runners():
         return f, call
     runners["PtTebd.compute"] = (["PtTebd.compute"], tebd_build)
 
+    def tebd_float_build():
+        # end_step as it comes out of float arithmetic (3.0 passes PtTebd's int() check and
+        # becomes the bar's max_value): the redraw of the bar rejects it midway
+        f = {"float-end-step": Fault()}
+        chain = oqupy.SystemChain(hilbert_space_dimensions=[2, 2])
+        chain.add_site_hamiltonian(site=0, hamiltonian=sz)
+        chain.add_nn_hamiltonian(site=0, hamiltonian_l=sx, hamiltonian_r=sx)
+        tebd = oqupy.PtTebd(initial_augmented_mps=oqupy.AugmentedMPS([up, up]),
+                            system_chain=chain, process_tensors=[None, None],
+                            parameters=oqupy.PtTebdParameters(dt=0.1, order=1, epsrel=1.0e-4),
+                            dynamics_sites=[0])
+
+        def call(progress_type):
+            v = f["float-end-step"]
+            if v.armed and v.at is None:
+                v.calls += 1
+            end = 3.0 if (v.armed and v.at is not None) else 3
+            return tebd.compute(end_step=end, progress_type=progress_type)
+        return f, call
+    runners["PtTebd.compute/float-end-step"] = (["PtTebd.compute"], tebd_float_build)
+
     def tebd_par_build(mode, nsites):
         # the documented backend option {'parallel': ...}: one executor pool per gate layer;
         # fault "pool-submit" is ticked by the harness' logging executor at every submit()
